@@ -144,6 +144,7 @@ def run(rep, tier, seed, pa):
     nref = 40 if tier == "quick" else 400
     plines, pmetas = [], []
     lines, metas = [], []
+    shared = None
     for ri in range(nref):
         n = rng.choice([2, 3, 3, 4, 5])
         sizes = gen.sizes_for(rng, n, 6, allow_empty=(ri % 6 == 0))
@@ -154,7 +155,11 @@ def run(rep, tier, seed, pa):
         names = list(cont.annotators)
         gts = names if rng.random() < 0.5 or n < 3 else sorted(rng.sample(names, rng.randrange(2, n + 1)))
         desc = {"units": units, "ground_truth": list(gts)}
-        sampler = pa.StatisticalContinuumSampler()
+        # the same sampler object is re-initialised on successive references (every other reference): nothing of an earlier reference may leak
+        if ri % 2 == 0 or "shared_sampler" not in rep.extra:
+            rep.extra["shared_sampler"] = True
+            shared = pa.StatisticalContinuumSampler()
+        sampler = shared
         try:
             sampler.init_sampling(cont, gts)
         except Exception as e:
@@ -165,7 +170,11 @@ def run(rep, tier, seed, pa):
         cid = {c: i for i, c in enumerate(cats)}
         ref = [[(u.segment.start, u.segment.end, cid[u.annotation]) for u in cont[a]] for a in names]
         plines.append([611] + w_list(ref, lambda us: w_list(us, lambda u: q(u[0]) + q(u[1]) + [u[2]])) + [len(cats)])
-        pmetas.append((desc, sampler, cats))
+        import types
+        frozen = types.SimpleNamespace(**{k: getattr(sampler, k) for k in ("_avg_nb_units_per_annotator", "_std_nb_units_per_annotator", "_avg_gap", "_std_gap",
+                                                                          "_avg_unit_duration", "_std_unit_duration")},
+                                       _categories=list(sampler._categories), _categories_weight=list(sampler._categories_weight))
+        pmetas.append((desc, frozen, cats))
         params = {"avg_nb": sampler._avg_nb_units_per_annotator, "std_nb": sampler._std_nb_units_per_annotator, "avg_gap": sampler._avg_gap,
                   "std_gap": sampler._std_gap, "avg_dur": sampler._avg_unit_duration, "std_dur": sampler._std_unit_duration}
         for _ in range(3):
